@@ -66,7 +66,10 @@ def faults(rng):
         return m
     fs += [("bad-name-dash", bad_name(b"@ na-me @", 5)), ("bad-name-digit", bad_name(b"@ 1abc @", 3)),
            ("bad-name-space", bad_name(b"@ a b @", 4)), ("bad-name-padded", bad_name(b"@    x.y  @", 7)),
-           ("bad-name-tight", bad_name(b"@x!@", 3)), ("bad-name-tab", bad_name(b"@\tfoo%bar @", 6))]
+           ("bad-name-tight", bad_name(b"@x!@", 3)), ("bad-name-tab", bad_name(b"@\tfoo%bar @", 6)),
+           # letters outside ASCII before the offending character: columns count bytes
+           ("bad-name-utf8", bad_name("@ gr\u00f6\u00dfe-x @".encode("utf-8"), 10)), ("bad-name-utf8-short", bad_name("@ \u00e9! @".encode("utf-8"), 5)),
+           ("bad-name-utf8-3byte", bad_name("@ \u4e16\u754c.x @".encode("utf-8"), 9))]
     def garbage_before(text):
         def m(body):
             h = header_index(body)[0]
@@ -174,12 +177,20 @@ def main():
             open(os.path.join(d, "my.patch"), "wb").write(src)
             tgt = b"package p\n\nfunc f() { foo(); x := 1; _ = x }\n"
             open(os.path.join(d, "a.go"), "wb").write(tgt)
-            rc, out, err = vlib.run_gopatch(["-p", "my.patch", "a.go"], d)
-            ck.count(("cli", fname, src))
-            if rc == 0 or open(os.path.join(d, "a.go"), "rb").read() != tgt or b"my.patch" not in err:
-                ck.violation("command line with a rejected patch (%s): rc=%d, file changed=%s, stderr=%r"
-                             % (fname, rc, open(os.path.join(d, "a.go"), "rb").read() != tgt, err[:200]),
-                             {"patch": src.decode("utf-8", "replace")})
+            # the rejected patch alone, and next to patches that load, on every way of naming patches
+            open(os.path.join(d, "good.patch"), "wb").write(b"@@\n@@\n-foo()\n+bar()\n")
+            open(os.path.join(d, "good2.patch"), "wb").write(b"@@\n@@\n-x := 1\n+x := 2\n")
+            open(os.path.join(d, "goodlist.txt"), "wb").write(b"good.patch\ngood2.patch\n")
+            open(os.path.join(d, "badlist.txt"), "wb").write(b"good.patch\nmy.patch\ngood2.patch\n")
+            for argv in (["-p", "my.patch"], ["-p", "my.patch", "-P", "goodlist.txt"], ["-p", "good.patch", "-p", "my.patch"],
+                         ["-p", "my.patch", "-p", "good.patch"], ["-P", "badlist.txt"], ["-p", "good.patch", "-P", "badlist.txt"]):
+                open(os.path.join(d, "a.go"), "wb").write(tgt)
+                rc, out, err = vlib.run_gopatch(argv + ["a.go"], d)
+                ck.count(("cli", fname, src, tuple(argv)))
+                if rc == 0 or open(os.path.join(d, "a.go"), "rb").read() != tgt or b"my.patch" not in err:
+                    ck.violation("command line with a rejected patch (%s, %s): rc=%d, file changed=%s, stderr=%r"
+                                 % (fname, " ".join(argv), rc, open(os.path.join(d, "a.go"), "rb").read() != tgt, err[:200]),
+                                 {"patch": src.decode("utf-8", "replace"), "argv": argv})
     finally:
         shutil.rmtree(root, ignore_errors=True)
     ck.sample({"fault": cases[0][0], "patch": cases[0][1].decode("utf-8", "replace"), "expected_line_col_kind": cases[0][2]})
